@@ -1085,6 +1085,10 @@ class Exec:
             if cinfo is not None:
                 for n in cinfo.node.body:
                     if isinstance(n, ast.Assign) and any(isinstance(t, ast.Name) and t.id == attr for t in n.targets):
+                        # member of an IntEnum: its integer value (ordering comparisons are those of the integers)
+                        if any(b in ('IntEnum',) for b in cinfo.bases) and isinstance(n.value, ast.Constant) and \
+                                isinstance(n.value.value, int) and not isinstance(n.value.value, bool):
+                            return n.value.value
                         # class-level constant (enum member): identified by its qualified name
                         return '%s.%s' % (base.target, attr)
         if isinstance(base, str):
